@@ -109,8 +109,14 @@ func c19Rules(content string, strict bool, dl, dc int) ([]c19Rule, bool, string)
 	ok := true
 	var out []c19Rule
 	for _, e := range es {
-		if e.PathError != nil || e.Rule.Error.Err != nil {
+		if e.PathError != nil {
 			ok = false
+			continue
+		}
+		if e.Rule.Error.Err != nil {
+			// a rule that failed to parse: its error, its line and its line range are displaced like everything else
+			ok = false
+			out = append(out, c19Rule{"error", e.Rule.Error.Err.Error(), "", e.Rule.Lines.First - dl, e.Rule.Lines.Last - dl, fmt.Sprint(e.Rule.Error.Line - dl)})
 			continue
 		}
 		ex := e.Rule.Expr()
@@ -177,7 +183,7 @@ func c19Corr(r *hx.Run, content string) {
 	}
 }
 
-var c19Siblings = []string{"version: 1", "meta:\n  owner: team\n  tags: [a, b]", "description: |\n  some text\n  more text", "enabled: true", "list:\n  - 1\n  - 2", "other: {a: b}"}
+var c19Siblings = []string{"matrix: [[alert, Foo, expr, up], [record, x, expr, y]]", "steps:\n  - - record\n    - foo\n    - expr\n    - bar", "version: 1", "meta:\n  owner: team\n  tags: [a, b]", "description: |\n  some text\n  more text", "enabled: true", "list:\n  - 1\n  - 2", "other: {a: b}"}
 
 func c19RuleList(r *hx.Run) []string {
 	var lines []string
@@ -214,6 +220,30 @@ func c19Eval(r *hx.Run, cs c19Case) {
 		r.Case(cs.Content, len(sr) > 0)
 		if fmt.Sprint(sr) != fmt.Sprint(rr) {
 			r.Violate(hx.Violation{Class: "relaxed-differs-from-strict", Input: cs, Observed: map[string]any{"strict": sr, "relaxed": rr}, Expected: "same rules, names, expressions, line ranges and positions"})
+		}
+	case "folded-wrap":
+		wr, _, p2 := c19Rules(cs.Content, false, 0, 0)
+		if p2 != "" {
+			r.Violate(hx.Violation{Class: "panic", Input: cs, Observed: tail(p2, 1500)})
+			return
+		}
+		r.Case(cs.Content, true)
+		// whatever is found must sit on lines that hold it: the name of a found rule is on one of its lines
+		lines := strings.Split(cs.Content, "\n")
+		for _, x := range wr {
+			if x.Kind == "error" {
+				continue
+			}
+			found := false
+			for l := x.First; l <= x.Last && l-1 < len(lines); l++ {
+				if l >= 1 && strings.Contains(lines[l-1], x.Name) {
+					found = true
+				}
+			}
+			if !found {
+				r.Violate(hx.Violation{Class: "folded-block-rule-on-wrong-lines", Input: cs, Observed: x, Expected: "a rule reported for lines that hold its name, or no rule at all"})
+				break
+			}
 		}
 	case "wrap":
 		br, _, p1 := c19Rules(cs.Bare, false, 0, 0)
@@ -309,14 +339,30 @@ func runC19(r *hx.Run, replay string) {
 		depth := rr.Intn(5)
 		var w []string
 		indent := ""
+		isList := map[int]bool{}
+		levelIndent := map[int]string{}
 		for d := 0; d < depth; d++ {
-			if rr.Intn(2) == 0 {
+			isList[d] = rr.Intn(4) == 0
+			levelIndent[d] = indent
+			if rr.Intn(2) == 0 && !isList[d] {
 				for _, l := range strings.Split(hx.Pick(rr, c19Siblings), "\n") {
 					w = append(w, indent+l)
 				}
 			}
-			w = append(w, indent+hx.Pick(rr, []string{"spec", "rules", "data", "prometheus", "alerts", "group"})+fmt.Sprint(d)+":")
-			indent += "  "
+			key := hx.Pick(rr, []string{"spec", "rules", "data", "prometheus", "alerts", "group"}) + fmt.Sprint(d) + ":"
+			switch isList[d] {
+			case true:
+				// a list level: the wrapper key sits inside a list item (possibly next to other keys of that item)
+				if rr.Intn(2) == 0 {
+					w = append(w, indent+"- tenant: a", indent+"  "+key)
+				} else {
+					w = append(w, indent+"- "+key)
+				}
+				indent += "    "
+			default:
+				w = append(w, indent+key)
+				indent += "  "
+			}
 		}
 		addLine := len(w)
 		var body []string
@@ -326,9 +372,9 @@ func runC19(r *hx.Run, replay string) {
 		}
 		// trailing siblings at outer levels
 		for d := depth - 1; d >= 0; d-- {
-			if rr.Intn(3) == 0 {
-				ind := strings.Repeat("  ", d)
-				for k, l := range strings.Split(hx.Pick(rr, c19Siblings[:4]), "\n") {
+			if rr.Intn(3) == 0 && !isList[d] {
+				ind := levelIndent[d]
+				for k, l := range strings.Split(hx.Pick(rr, c19Siblings[:6]), "\n") {
 					if k == 0 {
 						l = "z" + l // a different key than the leading siblings
 					}
@@ -346,5 +392,52 @@ func runC19(r *hx.Run, replay string) {
 		}
 		c19Eval(r, c19Case{Kind: "wrap", Content: wrapped, Bare: bare, AddLine: addLine, AddCol: len(indent)})
 		c19Corr(r, wrapped)
+
+		// the same rules inside a literal block scalar (YAML in YAML, as in a ConfigMap): found, displaced by the lines above
+		// the block and by its indentation; inside a folded block the layout is gone and nothing may be reported on lines
+		// that do not hold it
+		brules := append([]string{}, rules...)
+		if rr.Intn(3) == 0 {
+			brules = append(brules, "- alert: Dup", "  expr: up == 0", "  labels:", "    team: a", "    team: b")
+		}
+		if len(brules) < 3 {
+			// pint only looks into scalars with more than one line break
+			brules = append(brules, "- record: extra:rule", "  expr: up")
+		}
+		style := hx.Pick(rr, []string{"|", "|", "|-", "|+", ">"})
+		if style == ">" {
+			// a layout that survives folding as valid YAML: one-line rules with a blank line between them (two line breaks
+			// fold into one, so every rule after the first ends up on another line than the one it is written on)
+			brules = nil
+			for k, n := 0, 3+rr.Intn(2); k < n; k++ {
+				brules = append(brules, fmt.Sprintf("- {record: \"folded:r%d\", expr: up}", k))
+			}
+		}
+		var withBlanks []string
+		for k, l := range brules {
+			if k > 0 && strings.HasPrefix(l, "- ") && (style == ">" || rr.Intn(4) == 0) {
+				withBlanks = append(withBlanks, "") // a blank line between rules: a literal block keeps it, a folded one does not keep the count
+			}
+			withBlanks = append(withBlanks, l)
+		}
+		bbare := strings.Join(withBlanks, "\n") + "\n"
+		pre := []string{"apiVersion: v1", "kind: ConfigMap"}[:rr.Intn(3)]
+		bind := strings.Repeat(" ", 2+2*rr.Intn(2))
+		var bl []string
+		bl = append(bl, pre...)
+		bl = append(bl, "data:", "  rules.yml: "+style)
+		for _, l := range withBlanks {
+			if l == "" {
+				bl = append(bl, "")
+			} else {
+				bl = append(bl, "  "+bind+l)
+			}
+		}
+		bl = append(bl, "other: x")
+		kind := "wrap"
+		if style == ">" {
+			kind = "folded-wrap"
+		}
+		c19Eval(r, c19Case{Kind: kind, Content: strings.Join(bl, "\n") + "\n", Bare: bbare, AddLine: len(pre) + 2, AddCol: 2 + len(bind)})
 	}
 }
